@@ -33,7 +33,7 @@ MANIFEST = {
              'pickle (arrays come back writeable with the same content); Index/IndexHierarchy construction reduced to uniqueness + tree-form. '
              'Partial: floats are covered by the per-cell guard cell_ok (text parses back to the value; evaluated for every generated float) rather than a general theorem; floats in '
              'exponent notation are checked against S only; names (frame / index / columns) are compared only for pickle/deepcopy; zero-row Frames, encodings, quoting options other than '
-             'the defaults, skip_header/skip_footer, index_column_first, dtypes= are not covered. Nine known findings (known/C16.jsonl), six of them with a Refuted/C16.v witness.'),
+             'the defaults, skip_header/skip_footer, index_column_first, dtypes= are not covered. Seven known findings (known/C16.jsonl), five of them with a Refuted/C16.v witness; two more (unpickled Index._positions writeable, Frame.items() on hierarchical columns) were repaired in /repo (72854e7, 52e7271) and their inputs stay as regression cases.'),
     'technique': 'refinement proof (Coq) of an executable model of the export/import pipeline + differential runs through the public interface evaluated inside Coq (vm_compute) + regenerated constants',
 }
 PROPERTY_FILES = ['Properties/C16.v']
@@ -59,6 +59,7 @@ TRUSTED = ['oracle models in coq/SF/Codec.v of csv / np.genfromtxt / int() / flo
            'tools/sfv/props/c16.py:generate -- ast extraction of the StoreFilter defaults, STORE_FILTER_DISABLE, delimiter_native, the csv.reader bypass branch and the keyword defaults of to_delimited / from_delimited (fail closed)']
 EXHAUSTIVE = {'quick': False, 'thorough': False}
 TRANSLATED = []
+GENERATED_FILES = ['Gen/Gen_c16.v']
 SHARD_SIZE = 300          # a shard of 400 of these cases needs ~0.6 GB in coqc
 
 _FRAME = 'static_frame/core/frame.py'
@@ -697,8 +698,6 @@ def witness_cases(ctx):
 
 
 # ----------------------------------------------------------------------------- structural exports, pickle
-F_PICKLE = 'C16-pickle-positions-writeable'
-F_ITEMS = 'C16-items-hierarchical-columns'
 F_ROWS = 'C16-row-export-int-as-float-rounds'
 
 
@@ -751,7 +750,7 @@ def structural_cases(ctx):
     rng = ctx.rng
     IH = sf.IndexHierarchy.from_labels
     fixed = [
-        # the minimal replays of the structural findings (each listed finding must reproduce in every run)
+        # the minimal replay of the row-export finding, and the regression input of the repaired Frame.items() defect
         {'index': [['x']], 'columns': [['a'], ['b']], 'cols': [('i', [2 ** 63 - 1]), ('f', [1.5])], 'di': 1, 'dc': 1},
         {'index': [['x']], 'columns': [['a', 1], ['a', 2]], 'cols': [('i', [1]), ('i', [2])], 'di': 1, 'dc': 2},
     ]
@@ -816,7 +815,7 @@ def structural_cases(ctx):
         obs, oj, _ = _obs_lit(lambda: sf.Frame.from_items(frame.items(), index=frame.index, columns_constructor=cc))
         ctx.count('struct:items')
         yield Case('api:items', dict(base, call='Frame.from_items(f.items(), index=f.index)', observed=oj),
-                   s=f'obs_sim (Ok {f}) {obs}', tags=dict(tags, finding=F_ITEMS) if dc > 1 else tags)
+                   s=f'obs_sim (Ok {f}) {obs}', tags=tags)
         # pickle / deepcopy: equal Frame, same dtypes, names, class, read-only arrays
         for how, fn in (('pickle', lambda: pickle.loads(pickle.dumps(frame))), ('deepcopy', lambda: copy.deepcopy(frame))):
             try:
@@ -848,7 +847,7 @@ def structural_cases(ctx):
                        s=f'oframe_eqb {_oframe(frame)} {_oframe(g)}', py_fail='; '.join(why) or None, tags=tags)
             yield Case(f'api:{how}-positions', dict(base, call=f'{how} of f; flags.writeable of index.positions / columns.positions', observed={'writeable': pos_flags}),
                        py_fail='a positions array is writeable' if any(pos_flags) else None,
-                       tags=dict(tags, finding=F_PICKLE) if how == 'pickle' else tags)
+                       tags=tags)
 
 
 
